@@ -63,6 +63,18 @@ CHECKS.update({
     ),
 })
 
+CL_NOTE = "simkafka (vlib/simkafka.py) models a 0.10-era cluster and parses every request with refproto's strict parser; the oracles quote what the model answered (ledger of replies and their delivery), so a modelling inaccuracy changes which situations arise, not whether afkak's reaction to an answer was right. Interleavings = orderings of the simulator's events (connect resolution, per-frame broker processing, byte chunks, connectionLost, single timers)."
+CHECKS.update({
+    "C07": ("CL", "stateful property-based testing (Hypothesis-drawn call/schedule/fault sequences) of the real KafkaClient on a simulated stateful cluster; routing, ordering and accounting invariants over the per-broker request log; ddmin-shrunk JSON traces",
+            "Search over cluster layouts, payload lists, reply orders and failing broker subsets; every written request is checked against the client's routing metadata, results against payload order and the broker's answers, FailedPayloadsError against exact-once accounting, and unavailable errors against the fallback order. Exploration, ~2000 traces per quick run.", CL_NOTE, "DESIGN.md 3/C07"),
+    "C08": ("CL", "stateful property-based testing: generated histories of metadata replies (partial/full, leaders moving, topics erroring, brokers removed/re-addressed) interleaved with requests; cache view compared with delivered replies after every event",
+            "The client's documented cache attributes must equal a whole delivered reply (or be empty) after every event, removed brokers' connections must be closed after a full refresh, dialled addresses must come from replies no older than the witnessed one, and invalidated routing must be re-resolved before the next request. The end-to-end recovery clause is exercised by the PROD and CONS engines (C01/C09/C02 quiet phases).", CL_NOTE, "DESIGN.md 3/C08"),
+    "C11": ("CL", "stateful property-based testing with a harness-owned virtual clock: broker behaviour per request (prompt/late/never) and timer firing order are drawn; completion instants compared with issue+timeout; timer population compared with unanswered requests",
+            "For warm calls: resolution no later than the deadline and not earlier without a reply, success only with a delivered reply, no timeout timer surviving its reply, late replies harmless, unanswered requests re-sent when the connection is replaced, everything resolves once faults stop.", CL_NOTE, "DESIGN.md 3/C11"),
+    "C20": ("CL", "stateful property-based testing: close() drawn at any step (incl. scripted double-removal scenarios), then every ordering of connectionLost notifications; invariants on pending calls, later calls, writes/connects after close, close Deferred timing, caches",
+            "Search over client states at close; two genuine defects on the bootstrap path are recorded as known findings and excluded by signature so the search continues past them.", CL_NOTE, "DESIGN.md 3/C20"),
+})
+
 NOT_YET = {
 }
 
@@ -104,6 +116,7 @@ def main():
         },
         "engines": [
             {"name": "BC", "path": "vlib/engines/bc.py", "serves_properties": ["C06", "C10"], "kind_free_text": "real _KafkaBrokerClient / KafkaBootstrapProtocol on simulated time and transports (vlib/simnet.py) against a scripted peer, with a reference model of the request table; traces are JSON and replay without Hypothesis"},
+            {"name": "CL", "path": "vlib/engines/cl.py", "serves_properties": ["C04", "C07", "C08", "C11", "C20"], "kind_free_text": "real KafkaClient on simulated time/transports against vlib/simkafka.py (stateful cluster model built on the independent protocol implementation); Hypothesis draws calls, scheduler choices and faults; traces replay without Hypothesis"},
             {"name": "structured", "path": "checks/", "serves_properties": ["C04", "C05", "C12", "C15", "C18"], "kind_free_text": "Hypothesis @given over composite strategies with an independent protocol implementation (vlib/refproto) or foreign implementation (JVM) as oracle"},
         ],
         "checks": checks,
